@@ -416,14 +416,31 @@ class Trie(object):
         >>> tokens == expected
         True
         """
-        tokens = self.iter(string,
-            include_unmatched=include_unmatched, include_space=include_space)
-        tokens = list(tokens)
+        matched = list(self.iter(string, include_space=include_space))
         if TRACE:
-            logger_debug('tokenize.tokens:', tokens)
-        if not include_space:
-            tokens = [t for t in tokens if t.string.strip()]
-        tokens = filter_overlapping(tokens)
+            logger_debug('tokenize.matched:', matched)
+        matched = filter_overlapping(matched)
+        if not include_unmatched:
+            return matched
+
+        # return every part of the string that is not covered by a kept match
+        # as an unmatched token, including these of the discarded matches
+        tokens = []
+        matched = deque(matched)
+        end_pos = -1
+        for part in _tokenizer.split(string):
+            if not part:
+                continue
+            start_pos = end_pos + 1
+            end_pos += len(part)
+            while matched and matched[0].end < start_pos:
+                matched.popleft()
+            if matched and matched[0].start <= start_pos:
+                if matched[0].start == start_pos:
+                    tokens.append(matched[0])
+                continue
+            if include_space or part.strip():
+                tokens.append(Token(start_pos, end_pos, part, None))
         return tokens
 
 
